@@ -77,6 +77,21 @@ func runC02(c *engine.Ctx) {
 				w.features["env_block_rename_collision"] = true
 			}
 		}
+		// (c) empty lists inside untyped signed values (plugin configs, adjustment extras)
+		if p.Draw(2, "interp:emptylists") == 1 {
+			forEachCommandNode(docSteps(doc), func(n *gen.Node) {
+				pls := n.Get("plugins")
+				if pls != nil && pls.Kind == gen.KSeq {
+					for _, e := range pls.Seq {
+						if e.Kind == gen.KMap && len(e.Keys) == 1 && e.Vals[0].Kind == gen.KMap && p.Draw(2, "interp:emptylist-here") == 1 {
+							e.Vals[0].Set("volumes", &gen.Node{Kind: gen.KSeq, Seq: []*gen.Node{}})
+							e.Vals[0].Set("nested", gen.Map().Set("deep", &gen.Node{Kind: gen.KSeq, Seq: []*gen.Node{}}))
+							w.features["empty_list_in_plugin_config"] = true
+						}
+					}
+				}
+			})
+		}
 		// (b) an unknown key whose NAME expands to the name of a typed field of the same step
 		if p.Draw(3, "interp:fieldclash") == 2 {
 			forEachCommandNode(docSteps(doc), func(n *gen.Node) {
@@ -91,7 +106,7 @@ func runC02(c *engine.Ctx) {
 			})
 		}
 	}
-	src, format := gen.Render(p, doc, true)
+	src, format := gen.RenderMaybeMerged(p, doc, true)
 	c.Ev("doc", format, len(src), tape.HashString(string(src)))
 	c.Sample = map[string]any{"format": format, "document": truncate(string(src), 1500), "key": kp.kind, "hops": nhops, "entry": entry}
 
@@ -164,6 +179,18 @@ func runC02(c *engine.Ctx) {
 	data := u.json
 	curFmt := "json"
 	var hopFmts []string
+	// the signed pipeline may also be written out as YAML straight away (the property covers both formats
+	// for the first marshalling, not only for later hops)
+	if p.Draw(3, "upload:yaml") == 2 && w.yamlSafe && !fieldClash {
+		var yb []byte
+		var yerr error
+		c.Guard("C02.panic", "yaml.Marshal(signed pipeline)", func() { yb, yerr = yaml.Marshal(pl) })
+		if yerr != nil {
+			c.Fail("C02.relay", "upload as yaml", "yaml.Marshal of the freshly signed pipeline failed: %v\noriginal document (%s):\n%s", yerr, format, truncate(string(src), 1500))
+		}
+		data, curFmt = yb, "yaml"
+		hopFmts = append(hopFmts, "upload:yaml")
+	}
 	for h := 0; h < nhops; h++ {
 		f := []string{"json", "yaml"}[p.Draw(2, "hop:format")]
 		if f == "yaml" && !w.yamlSafe {
@@ -203,14 +230,30 @@ func runC02(c *engine.Ctx) {
 			c.Fail("C02.reparse", "whole pipeline "+curFmt, "Parse of the %s marshalling failed: %v\n%s", curFmt, err, truncate(string(data), 1500))
 		}
 		penv := pl2.Env.ToMap()
+		// one verification env (pipeline env + unrelated variables) reused for every step of the pipeline,
+		// or a per-step job env (pipeline env overlaid by step env): both contain what the property requires
+		sharedEnv := map[string]string{"BUILDKITE_JOB_ID": "j", "CI": "true"}
+		for k, v := range penv {
+			sharedEnv[k] = v
+		}
+		sharedBefore := fmt.Sprint(sharedEnv)
+		useShared := p.Draw(2, "agent:shared-env") == 1
+		defer func() {
+			if useShared && fmt.Sprint(sharedEnv) != sharedBefore {
+				c.Fail("C02.verify-mutated-env", "entry=Parse", "Verify modified the caller's verification env map: before %s after %s", sharedBefore, fmt.Sprint(sharedEnv))
+			}
+		}()
 		walkCommandSteps(pl2.Steps, func(cs *pipeline.CommandStep, d int) {
 			delivered++
-			env := map[string]string{"BUILDKITE_JOB_ID": "j"}
-			for k, v := range penv {
-				env[k] = v
-			}
-			for k, v := range cs.Env {
-				env[k] = v
+			env := sharedEnv
+			if !useShared {
+				env = map[string]string{"BUILDKITE_JOB_ID": "j"}
+				for k, v := range penv {
+					env[k] = v
+				}
+				for k, v := range cs.Env {
+					env[k] = v
+				}
 			}
 			v := agentVerifyStep(c, "C02", cs, env, repoURL, kp.pub, ctx, nil)
 			c.Ev("verify", delivered, v.noSig, v.verifyErr != nil)
